@@ -130,7 +130,8 @@ EquivInvariant ==
 (* mode "trip": write then read *)
 
 TripStrings == {E, <<97>>, <<SPACE, 97>>, <<97, SPACE>>, <<QUOTE>>, <<QUOTE, 97, QUOTE>>, <<97, QUOTE, 98>>, <<BACKSLASH>>, <<97, NL, 98>>, <<TAB>>,
-                <<233>>, <<160, 97>>, <<8232>>, <<COLON>>, <<EQ>>, <<SEMI, 97>>, <<HASH>>, <<LBRACK, 97, RBRACK>>, <<BADBYTE + 255>>, <<97, CR>>, <<SPACE>>}
+                <<233>>, <<160, 97>>, <<8232>>, <<COLON>>, <<EQ>>, <<SEMI, 97>>, <<HASH>>, <<LBRACK, 97, RBRACK>>, <<BADBYTE + 255>>, <<97, CR>>, <<SPACE>>,
+                <<97, SPACE, SEMI, 98>>, <<97, SPACE, HASH, 98>>}
 TripValues(od) ==
   IF od.vtype = "string" THEN TripStrings
   ELSE IF od.vtype = "int8" THEN {<<48>>, <<49, 50, 55>>, <<DASH, 49, 50, 56>>}
